@@ -646,6 +646,15 @@ def run_stored(case, ctx, rng, simu, info, key0):
     key = key0 + "/stored-iterations"
     n_it = 3
     states = []
+    # a simulation that has solved nothing yet stores its initial state, and every advertised result of that iteration can be read
+    with ctx.monitored("no-exception", key + "/raised (Save_Iter before any Solve)"):
+        with quiet():
+            virgin, _ = build(case, np.random.default_rng([case["seed"], NUM, case["index"]]))
+            virgin.Save_Iter()
+            for nm in virgin.Results_Available():
+                if nm != "displacement_matrix":
+                    val = virgin.Result(nm, iter=0)
+                    ctx.require("retrievable", val is not None, f"{key}/initial-state/{'none' if val is None else 'ok'}", name=nm)
     if info["base"] == "phasefield":
         # first, real load steps (load, load more, unload) with the staggered solver: the energy reported right after each Solve is
         # the one a brand-new simulation holding that displacement and that damage reports
